@@ -31,6 +31,12 @@ Definition tread (cap : N) (t : trd) : list byte * option N * trd :=
       else (got, None, {| t_rd := r'; t_wd := t_wd t; t_empty := more |})
     end
   end.
+(* the loops' continuation decision on a read failure: in every relay loop of copy.go (UDP tunnel end, UDP local end,
+   both directions of Bidirectional) ANY error — EOF, io.ErrUnexpectedEOF, net.ErrClosed, os.ErrDeadlineExceeded, every
+   net.Error whatever its Timeout()/Temporary(), plain errors — ends that direction after what was read with it has been
+   forwarded; nothing is retried.  That is what tread's `Some kind` means to every loop above/below.  Gen/C12.v's
+   relay_retry_table is the same decision probed on the real relays with sticky failures (Proofs/SideC12.v). *)
+Definition relay_retries (site kind : N) : bool := false.
 (* what is left to happen on a read side: bytes plus scripted empty reads *)
 Definition tmeasure (t : trd) : nat := (length (rest (t_rd t)) + length (t_empty t))%nat.
 
